@@ -94,7 +94,16 @@ impl CanCastTo<ResolvedParamType> for ExpressionType {
             },
             Self::Array(box_element_type) => match target {
                 ResolvedParamType::Array(target_element_type) => {
-                    box_element_type.can_cast_to(target_element_type)
+                    // an array is passed as it is: its elements are not converted
+                    match (box_element_type.as_ref(), target_element_type.as_ref()) {
+                        (Self::BuiltIn(q), ResolvedParamType::BuiltIn(q_target, _)) => {
+                            q == q_target
+                        }
+                        (Self::UserDefined(u), ResolvedParamType::UserDefined(u_target)) => {
+                            u == u_target
+                        }
+                        _ => false,
+                    }
                 }
                 _ => false,
             },
